@@ -56,7 +56,14 @@ def check(spec):
     mnr = r.op.map_nodal_restr
     if not mnr:
         return out.drop("no_nodal_rows")
-    k = spec["pick"] % len(mnr)
+    for j in range(3):                      # three (node, step) pairs per case
+        one_pick(spec, out, r, prices, mnr, (spec["pick"] + j * 7919) % len(mnr), split, spec["d"] * (1 if j != 1 else -1))
+        if out.violations:
+            break
+    return out
+
+
+def one_pick(spec, out, r, prices, mnr, k, split, d):
     t, node = int(mnr[k][0]), str(mnr[k][1])
     col = "nodal price: " + node
     if col not in prices.columns:
@@ -84,16 +91,29 @@ def check(spec):
     nrows = list(range(len(raw.cType) - n_outer, len(raw.cType)))
     if n_outer > len(raw.cType) or any(raw.cType[i] != "N" for i in nrows):
         return out.fail("the last %d rows of the problem are not the nodal restrictions listed in map_nodal_restr" % n_outer)
+    # which of them is the balance of (node, t)?  decided from the mapping, not from the order of the list
+    t_local = t - min(int(e[0]) for e in target.map_nodal_restr) if split else t
+    mp = target.mapping
+    sel = mp[(mp["type"] == "d") & (mp["node"].astype(str) == node) & (mp["time_step"].astype(int) == t_local)]
+    exp = np.zeros(raw.n)
+    df = sel["disp_factor"].fillna(1.0).values if "disp_factor" in sel.columns else np.ones(len(sel))
+    for i, f in zip(sel.index.values.astype(int), df):
+        exp[i] += float(f)
+    A_outer = raw.A[nrows].toarray()
+    hits = [j for j in range(len(nrows)) if np.allclose(A_outer[j], exp, rtol=1e-9, atol=1e-12)]
+    if len(sel) == 0 or not hits:
+        return out.fail("no nodal restriction row balances the dispatch variables of node %s at step %d" % (node, t))
+    if pos not in hits:
+        out.label("row_order_differs_from_map_nodal_restr")
+    pos = hits[0]
     s0, x0, v0 = lpkit.solve(raw)
     if s0 != "optimal":
         return out.drop("reference_not_optimal")
-    d = spec["d"]
     raw2 = raw.copy()
     raw2.b[nrows[pos]] = raw.b[nrows[pos]] - d
     s1, x1, v1 = lpkit.solve(raw2)
     out.label("perturbed:" + s1)
     if s1 == "infeasible":
-        out.nontrivial = False
         return out
     if s1 != "optimal":
         return out.drop("reference_perturbed_" + s1)
@@ -102,5 +122,5 @@ def check(spec):
         out.fail("node %s step %d: injection %g changes the optimum by %.9g, more than price x d = %g x %g = %.9g "
                  "(reported price is not a supergradient)" % (node, t, d, v1 - v0, price, d, price * d))
     out.label("price!=0" if abs(price) > 1e-9 else "price=0", "value_moves" if abs(v1 - v0) > tol else "value_flat")
-    out.nontrivial = abs(price) > 1e-9 and abs(v1 - v0) > tol
+    out.nontrivial = out.nontrivial or (abs(price) > 1e-9 and abs(v1 - v0) > tol)
     return out
